@@ -233,6 +233,9 @@ def judge_result(run, r, acc, driver_requests, owners):
                       signature="generator:nesting-above-bound:calltree")
     # erasure search
     for e in pl["erasure"]:
+        if not e.get("complete", True):
+            run.tally("erasure", "search-interrupted-by-cut-off")
+            continue
         s = e["summary"]
         mc = e["max_combinations"] or 0
         run.cov["erasure_functions"] += 1
@@ -536,7 +539,9 @@ def check(run):
     for name, detail, sig in broken:
         run.log("BROKEN correspondence:", name, json.dumps(detail, default=str)[:600])
         if not acc.failing:
+            first = detail[0] if isinstance(detail, list) and detail and "spec" in detail[0] else None
             run.violation({"kind": "broken-correspondence", "correspondence": name, "detail": detail,
+                           **({"replay": "pipeline", "spec": first["spec"]} if first else {}),
                            "searched": "%d pipeline runs judged against 2*max_depth+8 and the erasure bound" % done},
                           signature=sig, no_input=True)
     if not proofs_ok and not run.violations:
@@ -560,8 +565,13 @@ def replay(run, rp):
         r = pipeline.run_one(spec)
         judge_result(run, r, acc, rqs, owners)
         judge_driver(run, acc, rqs, owners)
+        diffs = {"skeleton": acc.mismatch, "measure": acc.measure_diff, "calltree": acc.tree_diff, "erasure": acc.erasure_diff}
         run.log("replayed", spec_key(spec), "exception" if "exception" in r else "", r.get("cutoff", ""),
-                "failing" if acc.failing else "holds")
+                "failing" if acc.failing else "holds", {k: len(v) for k, v in diffs.items()})
+        for k, v in diffs.items():
+            if v and not acc.failing:
+                run.violation({"kind": "broken-correspondence", "correspondence": k, "detail": v[:3], "replay": "pipeline",
+                               "spec": spec_key(spec)}, signature="replay:" + k, no_input=True)
     elif kind in ("has_bound_of-constructed", "has_bound_of-random"):
         hbo_stream(run, True)
     else:
